@@ -98,7 +98,7 @@ CHECKS = {
         "technique": "bounded-exhaustive enumeration of ordered particle configurations on the implementation against the statement's invariants, with branch-reachability guards",
     },
     "C03": {
-        "text": "1052 orientations (30-degree Euler lattice, gimbal and near-gimbal, out-of-range triples) x all 9^3 sign combinations of positions/shifts ride through lists of 1, 2 and <= 300 rows for every configuration of version {3.0,3.1,4.0} x pixel size x name format x optics on/off: export in memory and to file (parsed by an independent tokenizer), import from independently written STAR files/tables (pixel size from argument, rlnPixelSize, optics block, two optics groups; every single deviation in name style, half-set style, column order), export->import round trips, the four helper functions; arguments given at construction or at the call. The oracle states the convention independently: Rz(rot)Ry(tilt)Rz(psi) * Rz(psi)Rx(theta)Rz(phi) = I, so symmetric sign errors that cancel in a round trip are caught.",
+        "text": "1052 orientations (30-degree Euler lattice, gimbal and near-gimbal, out-of-range triples) x all 9^3 sign combinations of positions/shifts ride through lists of 1, 2 and <= 300 rows for every configuration of version {3.0,3.1,4.0} x pixel size x name format x optics on/off: export in memory and to file (parsed by an independent tokenizer), import from independently written STAR files/tables (pixel size from argument, rlnPixelSize, optics block, two optics groups in and out of numeric order in the optics table; every single deviation in name style, half-set style, column order), export->import round trips, the four helper functions; arguments given at construction or at the call. The oracle states the convention independently: Rz(rot)Ry(tilt)Rz(psi) * Rz(psi)Rx(theta)Rz(phi) = I, so symmetric sign errors that cancel in a round trip are caught.",
         "note": "Trusted: mc/oracles/so3.py, the private STAR tokenizer/writer in mc/props/C03.py. Not covered: use_original_entries=True, RELION 5, binning != 1; a file whose rlnRandomSubset holds a single value is not judged for parity. Two recorded findings (C03-K1, C03-K2).",
         "technique": "bounded-exhaustive enumeration of orientation/position lattices x conversion configurations on the implementation against explicit-matrix convention oracles",
     },
@@ -124,7 +124,7 @@ ADDED = {
     "C14": "Added: re-call after in-place edits, row-label and memory-layout variants, enforce_shape windows and pad, maps that are non-zero at their faces under generic rotations (no density without source), grey-valued templates (even edges) at generic orientations.",
     "C15": "Added: caller-owned argument objects shared across calls, merge of 1..13 (thorough 25) numbered part files, one centre definition across all crops of an image.",
     "C16": "Added: sizes 13 / 17, array memory layouts, int16 stacks (arrays and files, within one count), csv / text dose files, the written file holds the result.",
-    "C17": "Added: long decimals, acquisition-order wedge lists, repeated tilt, array index lists, gctf columns in another order, csv dose tables, mdoc.get_tilt_angles.",
+    "C17": "Added: long decimals, acquisition-order wedge lists, repeated tilt, array index lists, gctf columns in another order, gctf micrograph names that are not in text order, csv dose tables, mdoc.get_tilt_angles.",
     "C18": "Added: row-label variants, subtomogram numbers that restart per tomogram, the same list objects moved in place and analysed again.",
     "C19": "Added: row-label variants, a second tomogram holding a single particle.",
     "C20": "Added: 42 targets in the ball at every insertion position, array memory layouts, two lattice sheets of 10..300 points per surface (sparse and dense) in three labelling orders and both directions.",
